@@ -104,6 +104,7 @@ fn gen_generate_valid_inner_value_with_validators<T: ToTokens>(
     }
 
     let basic_value_kind = compute_basic_value_kind(&validator_kinds);
+    let must_be_finite = matches!(basic_value_kind, BasicValueKind::Finite);
     let basic_value = generate_basic_value(inner_type, basic_value_kind);
     let boundaries = compute_boundaries(validators);
 
@@ -111,6 +112,7 @@ fn gen_generate_valid_inner_value_with_validators<T: ToTokens>(
         inner_type,
         basic_value,
         boundaries,
+        must_be_finite,
     ))
 }
 
@@ -118,6 +120,7 @@ fn normalize_basic_value_for_boundaries(
     inner_type: &FloatInnerType,
     basic_value: TokenStream,
     boundaries: Boundaries,
+    must_be_finite: bool,
 ) -> TokenStream {
     match (boundaries.lower, boundaries.upper) {
         (Some(lower), Some(upper)) => {
@@ -147,22 +150,37 @@ fn normalize_basic_value_for_boundaries(
         (Some(lower), None) => {
             let lower_value = &lower.value;
             let adjust_x = gen_adjust_x_for_lower_boundary(inner_type, &lower);
+            // A finite basic value plus a boundary of big magnitude may overflow to infinity,
+            // which the `finite` validator would reject.
+            let saturate_upwards = if must_be_finite {
+                quote!(let x = x.min(#inner_type::MAX);)
+            } else {
+                quote!()
+            };
             quote! {
                 // Compute initial basic value
                 let basic_value = #basic_value;
                 let positive_basic_value = basic_value.abs();
                 let x = positive_basic_value + #lower_value;
+                #saturate_upwards
                 #adjust_x
             }
         }
         (None, Some(upper)) => {
             let upper_value = &upper.value;
             let adjust_x = gen_adjust_x_for_upper_boundary(inner_type, &upper);
+            // See the comment above: the sum may overflow to negative infinity.
+            let saturate_downwards = if must_be_finite {
+                quote!(let x = x.max(#inner_type::MIN);)
+            } else {
+                quote!()
+            };
             quote! {
                 // Compute initial basic value
                 let basic_value = #basic_value;
                 let negative_basic_value = -basic_value.abs();
                 let x = negative_basic_value + #upper_value;
+                #saturate_downwards
                 #adjust_x
             }
         }
